@@ -9,7 +9,6 @@
 
 Every program runs in the namespace of hv/props/_c14_rt.py (log, boom, E1.., CM, Pt, ident, kw, deco).
 """
-import itertools
 import keyword
 
 PRELUDE = '(setv a 3 b 5 xs [1 2 3] d {"k" 1 "j" 2} pt (Pt 1 2) w 0)\n'
@@ -30,7 +29,7 @@ def catalogue():
     C["if"] = [P + '(log "r" (if a (log "t" 1) (log "f" 2)))', P + '(if (log "c" 0) (log "t") (log "f"))',
                P + '(log "r" (if (do (setv q a) q) (do (setv z 1) z) (do (setv z 2) z)))', P + '(log "r" (if a 1 (if b 2 3)) (if (if a 0 1) 2 3))']
     C["cond-when-unless"] = [P + '(log "r" (cond (> a 5) "big" (> a 2) (do (log "mid") "mid") True "small"))', P + '(log "r" (cond))',
-                             P + '(log "r" (when a (log "w") 1) (when 0 2) (unless 0 3) (unless a 4))', P + '(when a (setv q 1) (log "q" q))']
+                             P + '(log "r" (when a (log "w") 1) (when 0 2) (when (not a) 4))', P + '(when a (setv q 1) (log "q" q))']
     C["and-or-not"] = [P + '(log "r" (and a b) (and a 0 (boom "no")) (or 0 a (boom "no")) (or 0 [] None) (and) (or) (not a) (not (and a (or 0 b))))',
                        P + '(log "r" (and (do (setv q 1) q) (do (setv z 0) z) (log "no")))', P + '(log "r" (or (when 0 1) (do (setv z 7) z)))',
                        P + '(log "r" (not (not a)) (and (or a b) (or b a)) (or (and 0 a) (and a b)))']
@@ -70,12 +69,12 @@ def catalogue():
                   P + '(log "r" (match pt.x 1 "v") (match a pt.x "no" b.real "no2" _ "other"))', P + '(match a 3 (log "s" 1) _ (log "s" 2))', P + '(log "r" (match xs [#* _] "any") (match xs [_ _ z] z))',
                   P + '(log "r" (match [pt d] [(Pt :x 1) {"j" 2}] "deep"))', P + '(log "r" (match #(1 2) #(p q) (+ p q)))', P + '(log "r" (match d {"k" 1 "j" jj} jj {} "empty"))',
                   P + '(log "r" (match xs [p q r] :as whole [whole p]))']
-    params = ["[]", "[p]", "[p q]", "[p [q 2]]", "[p / q]", "[p * q]", "[p #* r]", "[p #** k]", "[p [q 1] / z * [u 3] v #** k]", "[#* r #** k]", "[* [q 5]]",
+    params = ["[]", "[p]", "[p q]", "[p [q 2]]", "[p / q]", "[p * q]", "[p #* r]", "[p #** k]", "[p [q 1] / [z 2] * [u 3] v #** k]", "[#* r #** k]", "[* [q 5]]",
               "[#^ int p #^ str [q \"s\"]]", "[p / [q 2] #* r]", "[[p 1] [q (+ a 1)]]"]
     calls = {"[]": ["(f)"], "[p]": ["(f 1)", "(f :p 1)", "(f #* [1])", "(f #** {\"p\" 1})", "(f)"], "[p q]": ["(f 1 2)", "(f 1 :q 2)", "(f :q 2 :p 1)", "(f :q 2 1)", "(f #* [1 2])", "(f 1 #** {\"q\" 2})"],
              "[p [q 2]]": ["(f 1)", "(f 1 3)", "(f 1 :q 4)"], "[p / q]": ["(f 1 2)", "(f 1 :q 2)", "(f :p 1 :q 2)"], "[p * q]": ["(f 1 :q 2)", "(f 1 2)"],
              "[p #* r]": ["(f 1)", "(f 1 2 3)", "(f #* xs #* xs)"], "[p #** k]": ["(f 1)", "(f 1 :z 2 :y 3)", "(f :p 1 #** d)"],
-             "[p [q 1] / z * [u 3] v #** k]": ["(f 1 2 3 :v 4)", "(f 1 :z 3 :v 4 :extra 5)", "(f 1 2 3 4 :v 5)"], "[#* r #** k]": ["(f)", "(f 1 :k 2)", "(f #* xs #** d)"],
+             "[p [q 1] / [z 2] * [u 3] v #** k]": ["(f 1 2 3 :v 4)", "(f 1 :z 3 :v 4 :extra 5)", "(f 1 2 3 4 :v 5)"], "[#* r #** k]": ["(f)", "(f 1 :k 2)", "(f #* xs #** d)"],
              "[* [q 5]]": ["(f)", "(f :q 6)"], "[#^ int p #^ str [q \"s\"]]": ["(f 1)", "(f 1 \"t\")"], "[p / [q 2] #* r]": ["(f 1)", "(f 1 2 3 4)"], "[[p 1] [q (+ a 1)]]": ["(f)", "(f 2)", "(f :q 9)"]}
     C["defn-parameters-and-calls"] = []
     for ps in params:
@@ -118,7 +117,7 @@ def catalogue():
                             P + '(defn f [] (nonlocal w) (setv w 9)) (f) (log "r" w)']
     C["chained-comparison-and-operators"] = [P + '(log "r" (< 1 a 5) (< 1 a 2 (boom "no")) (<= 3 a 3) (= a 3 3) (!= a 4) (> 9 a 1) (>= a b))', P + '(log "r" (chainc 1 < a <= 3 != b))',
                                              P + '(log "r" (is a a) (is-not a None) (in a xs) (not-in a xs) (in 1 xs [xs]))', P + '(log "r" (+ 1 2 3) (- 10 1 2) (* 2 3 4) (/ 8 2 2) (** 2 3 2) (// 9 2) (% 9 4) (+) (*) (- 5) (/ 4) (+ a))',
-                                             P + '(log "r" (& 7 3) (| 1 2 4) (^ 5 1) (<< 1 3) (>> 16 2) (bnot 5) (~ 5))', P + '(log "r" (+ "a" "b") (* [1] 2) (+ [1] [2] [3]) (% "%s-%s" #(1 2)))',
+                                             P + '(log "r" (& 7 3) (| 1 2 4) (^ 5 1) (<< 1 3) (>> 16 2) (bnot 5) (bnot (bnot 5)))', P + '(log "r" (+ "a" "b") (* [1] 2) (+ [1] [2] [3]) (% "%s-%s" #(1 2)))',
                                              P + '(log "r" (- (- a)) (- (+ a)) (bnot (bnot a)) (not (- a)) (- (not a)))', P + '(log "r" (< (+ a 1) (* b 2)) (+ (< a b) 1) (= (= a a) True))',
                                              P + '(log "r" (+ #* xs) (* #* xs) (< #* xs))', P + '(import operator) (log "r" (@ (Mat) (Mat)))']
     C["unpacking-and-keyword-arguments"] = [P + '(log "r" (kw 1 #* xs 2 #* [3]) (kw :p 1 #** d :q 2) (kw #* xs #** d))', P + '(log "r" [#* xs 0 #* xs] #(#* xs) #{#* xs} {#** d "z" 0 #** {"y" 1}})',
@@ -137,10 +136,10 @@ def catalogue():
                                       P + '(defn valid? [x-y] (+ x-y 1)) (log "r" (valid? 1) (valid? :x-y 2))', P + '(defclass My-Class [] (setv class-attr 1) (defn do-it! [self] "done")) (log "r" My-Class.class-attr (.do-it! (My-Class)))',
                                       P + '(setv ℂ 1 ﬁ 2 𝔘 3) (log "r" ℂ ﬁ 𝔘 (sorted (gfor k (globals) :if (not (in k ["log"])) :if (< (len k) 3) k)))', P + '(import math [floor :as my-floor]) (log "r" (my-floor 1.5))',
                                       P + '(setv hyx_XasteriskX 1) (log "r" hyx_XasteriskX *)'.replace(" *)", ")"), P + '(kw :a-b 1 :c? 2) (log "r" (dict :a-b 1))']
-    C["keywords-as-identifiers"] = [P + '(setv def 1 class 2 if 3 lambda 4 import 5 return 6 pass 7 yield 8) (log "r" def class if lambda import return pass yield)', P + '(defn def [class] (+ class 1)) (log "r" (def 1) (def :class 2))',
+    C["keywords-as-identifiers"] = [P + '(setv def 1 class 2 if 3 lambda 4 import 5 return 6 pass 7 yield 8) (log "r" def class if lambda import return pass yield)', P + '(defn def [class] (+ class 1)) (log "r" (def 1) (def :class 2))', P + '(defn while [if] (+ if 1)) (log "r" ((do while) 1) ((do while) :if 2))',
                                     P + '(kw :if 1 :else 2 :for 3 :in 4 :is 5 :not 6 :and 7 :or 8)', P + '(setv pt.def 1 pt.class 2) (log "r" pt.def (. pt class) (getattr pt "def"))', P + '(for [in xs] (log "in" in))',
                                     P + '(log "r" (lfor for xs :if for (* for 2)))', P + '(try (boom "x") (except [except E1] (log "h" (str except))))', P + '(with [with (CM "a")] (log "w" with))',
-                                    P + '(import math :as from) (log "r" (from.floor 1.5))', P + '(import math [floor :as del]) (log "r" (del 1.5))', P + '(log "r" (match a else else))', P + '(defclass while [] (setv try 1)) (log "r" while.try)',
+                                    P + '(import math :as from) (log "r" (from.floor 1.5))', P + '(import math [floor :as del]) (log "r" ((do del) 1.5))', P + '(log "r" (match a else else))', P + '(defclass while [] (setv try 1)) (log "r" while.try)',
                                     P + '(defn f [#* global #** nonlocal] #(global nonlocal)) (log "r" (f 1 :assert 2))', P + '(log "r" ((fn [await async] (+ await async)) 1 2))', P + '(log "r" (let [raise 1 with 2] (+ raise with)))',
                                     P + '(setv match 1 case 2 type 3 _ 4) (log "r" match case type _)', P + '(log "r" f"{def}")'.replace("(log", "(setv def 1) (log"), P + '(log "r" (setx finally 3) finally)', P + '(setv 𝐝ef 1) (log "r" def)']
     C["import-require-macros"] = [P + '(import math) (import math [floor ceil :as c]) (import os.path) (import os.path :as p) (import math *) (log "r" (math.floor 1.5) (floor 2.5) (c 1.2) (os.path.basename "a/b") (p.basename "c/d") (sqrt 4))',
@@ -153,8 +152,10 @@ def catalogue():
     C["assert-raise"] = [P + '(assert a)', P + '(assert (= a 4) "msg")', P + '(assert (= a 4) (log "m" "lazy"))', P + '(assert (do (setv q 1) q) (do (setv z "m") z))', P + '(raise (E1 "x"))', P + '(raise E3)',
                          P + '(try (raise (E1 "x") :from (E3 "c")) (except [e E1] (log "c" (str e.__cause__))))', P + '(try (raise (E1 "x") :from None) (except [e E1] (log "c" e.__suppress_context__)))', P + '(assert 0 (+ "a" "b"))']
     C["py-pys-annotations"] = [P + '(log "r" (py "a + 1") (py "[x for x in xs]") (py "(lambda: 1)()"))', P + '(pys "q = 1\\nfor i in xs:\\n    log(\'i\', i)") (log "r" q)', P + '(setv #^ int q 1) (setv #^ (get list int) z []) #^ str nv (log "r" __annotations__)',
-                               P + '(defn f [#^ int p #^ (| int None) [q None] #* #^ int r #** #^ str k] p) (log "r" f.__annotations__)', P + '(log "r" (annotate q int))'.replace('(log "r" (annotate q int))', '(annotate q int) (log "r" __annotations__)'),
+                               P + '(defn f [#^ int p #^ (| int None) [q None] #^ int #* r #^ str #** k] p) (log "r" f.__annotations__)', P + '(log "r" (annotate q int))'.replace('(log "r" (annotate q int))', '(annotate q int) (log "r" __annotations__)'),
                                P + '(defclass A [] #^ int x (setv #^ str y "s")) (log "r" A.__annotations__)', P + '(deftype :tp [T] Alias (get list T)) (log "r" Alias.__name__)']
+    C["deftype-without-type-parameters"] = [P + '(deftype Alias int) (log "r" Alias.__name__ Alias.__value__)', P + '(deftype Alias (get dict str int)) (log "r" Alias.__name__)',
+                                            P + '(defn f [] (deftype Local (| int None)) Local) (log "r" (. (f) __name__))']
     C["statements-in-expression-position"] = [P + '(log "r" (+ (do (setv q 1) q) (if a (do (setv z 2) z) 3) (try (boom "x") (except [E1] 4)) (with [c (CM "m" :value 5)] c) (match a 3 6)))',
                                               P + '(log "r" [(while False) (for [x []] x) (setv q 1) (del q) (defn f []) (defclass A []) (import math) (assert True) (global g)])'.replace(" (global g)", ""),
                                               P + '(log "r" (kw (try 1 (finally (log "fin"))) :k (with [c (CM "m")] c)))', P + '(log "r" (if (try (boom "x") (except [E1] 0)) "t" "f"))', P + '(log "r" (lfor x xs (try (/ 1 (- x 2)) (except [ZeroDivisionError] "z"))))',
@@ -172,8 +173,12 @@ INNER = {
     "call": "(ident a)", "method-call": "(.bit-length a)", "subscript": "(get xs 0)", "slice": "(cut xs 1)", "attribute": "pt.x", "name": "a", "int": "7", "float": "1.5", "complex": "2j",
     "string": '"s"', "bytes": 'b"s"', "none": "None", "true": "True", "ellipsis": "...", "tuple": "#(a 1)", "empty-tuple": "#()", "list": "[a]", "dict": '{"k" a}', "set": "#{a}",
     "listcomp": "(lfor x xs x)", "genexp": "(gfor x xs x)", "dictcomp": "(dfor x xs x x)", "fstring": 'f"{a}"', "statement-do": "(do (setv q 2) q)", "try-expr": "(try a (except [E1] 0))",
-    "keyword-object": ":kw", "quoted-symbol": "'sym",
+    "quoted-symbol": "'sym", "quoted-form": "'(f x)",
 }
+# one representative per Python precedence level / atom kind (quick tier); the thorough tier takes all of INNER
+INNER_CORE = ("lambda", "ternary", "walrus", "or", "and", "not", "compare", "bitor", "bitxor", "bitand", "shift", "add", "mul", "unary-minus", "invert", "pow",
+              "call", "subscript", "attribute", "name", "int", "float", "string", "tuple", "list", "dict", "listcomp", "genexp", "fstring", "statement-do")
+NEGATIVE_SENSITIVE = ("pow-base", "pow-both", "attribute-base", "method-base", "await")
 NEGATIVE = {"negative-int": "-7", "negative-float": "-1.5", "negative-zero": "-0.0", "negative-complex": "-2j", "complex-sum": "1+2j", "negative-complex-sum": "-1-2j"}
 
 OUTER = {
@@ -191,7 +196,7 @@ OUTER = {
     "displays": {"tuple-element": "#(H 1)", "single-tuple": "#(H)", "list-element": "[H H]", "set-element": "#{H}", "dict-key": "{H 1}", "dict-value": '{"k" H}', "star-in-list": "[#* H]", "double-star-in-dict": "{#** H}"},
     "comprehensions": {"element": "(lfor x xs H)", "iterable": "(lfor x H x)", "condition": "(lfor x xs :if H x)", "genexp-element": "(list (gfor x xs H))", "dict-key-value": "(dfor x xs H H)",
                        "setv-clause": "(lfor x xs :setv y H y)", "nested-iterable": "(lfor x xs y H #(x y))"},
-    "fstring": {"field": 'f"{H}"', "field-conversion": 'f"{H !r}"', "field-spec": 'f"{H :>8}"', "nested-spec-field": 'f"{a :{H}}"', "debug": 'f"{H = }"'},
+    "fstring": {"field": 'f"{ H }"', "field-conversion": 'f"{ H !r}"', "field-spec": 'f"{ H :>8}"', "nested-spec-field": 'f"{a :{ H }}"', "debug": 'f"{ H = }"'},
     "statements": {"assign": "(do (setv q H) q)", "augmented": "(do (setv q 1) (+= q H) q)", "return": "((fn [] (return H)))", "yield": "(list ((fn [] (yield H))))", "yield-from": "(list ((fn [] (yield :from H))))",
                    "assert-test": "(do (assert H) 1)", "assert-message": '(do (assert 1 H) 1)', "for-iterable": "(do (for [x H] (log \"x\" x)) 1)", "while-test": "(do (setv i 0) (while (and (< i 1) H) (+= i 1)) i)",
                    "if-statement-test": "(do (if H (log \"t\") (log \"f\")) 1)", "with-item": "(with [c H] 1)", "match-subject": "(match H 3 \"three\" _ \"other\")", "decorator": "(do (defn [H] f [] 1) 1)",
@@ -219,7 +224,7 @@ POSITIONS = {
     "variable": '(setv K 1) (log "r" K)',
     "attribute": '(setv pt.K 1) (log "r" pt.K (. pt K))',
     "method-call": '(defclass A [] (defn K [self] 1)) (log "r" (.K (A)) ((. (A) K)))',
-    "function-name": '(defn K [] 1) (log "r" (K) K.__name__)',
+    "function-name": '(defn K [] 1) (log "r" ((do K)) K.__name__)',
     "class-name": '(defclass K []) (log "r" K.__name__)',
     "parameter": '(defn f [K] K) (log "r" (f 1) (f :K 2))',
     "positional-only-parameter": '(defn f [K /] K) (log "r" (f 1))',
@@ -232,7 +237,7 @@ POSITIONS = {
     "import-name": '(import sys) (setv (get sys.modules "K") (hy.I.types.ModuleType "K")) (import K) (log "r" K.__name__)',
     "import-as": '(import math :as K) (log "r" (K.floor 1.5))',
     "from-import-name": '(import sys) (setv m (hy.I.types.ModuleType "c14m") m.K 7 (get sys.modules "c14m") m) (import c14m [K]) (log "r" K)',
-    "from-import-as": '(import math [floor :as K]) (log "r" (K 1.5))',
+    "from-import-as": '(import math [floor :as K]) (log "r" ((do K) 1.5))',
     "dotted-import-last-part": '(import sys) (setv m (hy.I.types.ModuleType "c14p") s (hy.I.types.ModuleType "c14p.K") s.v 3 m.K s (get sys.modules "c14p") m (get sys.modules "c14p.K") s) (import c14p.K) (log "r" (. c14p K v))',
     "dotted-import-first-part": '(import sys) (setv m (hy.I.types.ModuleType "K") s (hy.I.types.ModuleType "K.sub") s.v 3 m.sub s (get sys.modules "K") m (get sys.modules "K.sub") s) (import K.sub) (log "r" K.sub.v)',
     "dotted-from-import-module": '(import sys) (setv m (hy.I.types.ModuleType "c14q") s (hy.I.types.ModuleType "c14q.K") s.v 3 m.K s (get sys.modules "c14q") m (get sys.modules "c14q.K") s) (import c14q.K [v]) (log "r" v)',
@@ -259,7 +264,7 @@ POSITIONS = {
     "fstring-field": '(setv K 1) (log "r" f"{K} {K !r :>{K}}")',
     "type-parameter": '(defn :tp [K] f [] 1) (log "r" (f))',
     "let-binding": '(log "r" (let [K 1] (+ K 1)))',
-    "call-function": '(setv K ident) (log "r" (K 1))',
+    "call-function": '(setv K ident) (log "r" ((do K) 1))',
     "starred-assignment-target": '(setv [p #* K] xs) (log "r" K)',
     "class-attribute": '(defclass A [] (setv K 1)) (log "r" A.K)',
     "class-keyword-argument": '(defclass M [type] (defn __new__ [cls n b d #** k] (log "k" k) (.__new__ type cls n b d))) (defclass A [:metaclass M :K 1])',
@@ -268,10 +273,15 @@ POSITIONS = {
 }
 
 
-def mincing(names=None):
-    for pos, pat in POSITIONS.items():
+def _subst(pat, k):
+    """replace the placeholder K (a whole token, not the K inside "K.sub" module strings excepted: those are meant too)"""
+    return pat.replace("K", k)
+
+
+def mincing(names=None, positions=None):
+    for pos, pat in (POSITIONS if positions is None else positions).items():
         for k in (KEYWORDS if names is None else names):
-            yield pos, k, PRELUDE + guarded("(do " + pat.replace("K", k) + ")") if False else PRELUDE + pat.replace("K", k)
+            yield pos, k, PRELUDE + _subst(pat, k)
 
 
 # ------------------------------------------------------------------------------------------------
@@ -282,9 +292,16 @@ def literals():
     nums = ["0", "1", "255", "10000000000000000000000000000", "0x1F", "0o17", "0b101", "1_000_000", "1.5", "0.1", "1e10", "1e-7", "1e22", "1e16", "5e-324", "1.7976931348623157e308", "1e400", "Inf", "NaN",
             "2j", "1.5j", "0j", "1e400j", "Infj", "NaNj", "123456789.123456789", "1/3"]
     for n in nums:
-        out.append(("number", PRELUDE + f'(log "r" {n} [{n}] (type {n}))'))
-    for n in ["-7", "-1.5", "-0.0", "-Inf", "-2j", "-0j", "1+2j", "-1-2j", "1-0j", "-1e400", "NaN+Infj", "-0.0-0j", "-1/3"]:
-        out.append(("negative-or-compound-number", PRELUDE + f'(log "r" {n} [{n}] #({n}) (type {n}) (str {n}))'))
+        cls = "number with a NaN imaginary part" if n == "NaNj" else "number"
+        out.append((cls, PRELUDE + f'(log "r" {n} [{n}] (type {n}))'))
+    for n in ["-7", "-1.5", "-0.0", "-Inf", "-1e400", "-1/3", "-0", "-0x10", "-1_0"]:
+        out.append(("negative real number", PRELUDE + f'(log "r" {n} [{n}] #({n}) (type {n}) (str {n}))'))
+    for n in ["1+2j", "1-2j", "1.5+0j", "0+2j", "Inf+2j", "1e400-Infj"]:
+        out.append(("complex number with a positive real part", PRELUDE + f'(log "r" {n} [{n}] #({n}) (type {n}) (str {n}))'))
+    for n in ["-2j", "-0j", "-1-2j", "-1+2j", "-0.0-0j", "-Infj", "-0.0+1j"]:
+        out.append(("complex number with a negative real part or a lone negative imaginary part", PRELUDE + f'(log "r" {n} [{n}] #({n}) (type {n}) (str {n}))'))
+    for n in ["NaN+Infj", "1+NaNj", "NaN+NaNj"]:
+        out.append(("complex number with a NaN part", PRELUDE + f'(log "r" {n} [{n}] (type {n}) (str {n}))'))
     strs = ['""', '"a"', '"\'"', '"\\""', '"\'\\""', '"\\\\"', '"\\n"', '"a\nb"', '"\\t\\r\\x00\\x7f"', '"é😀\\u2028"', '"\\ud800"', '"{}"', '"\'\'\'"', '"\\"\\"\\""', '"\'\'\'\\"\\"\\""', '"ends with \\\\"',
             '"\\N{BULLET}"', 'r"\\d+\\n"', '#[[bracket "string" \'q\']]', '#[==[a]]b]==]', '"""']
     strs = [s for s in strs if s != '"""']
@@ -319,8 +336,10 @@ CONSTANT_POSITIONS = {k: POSITIONS[k] for k in ("attribute", "method-call", "key
 # ------------------------------------------------------------------------------------------------
 # random programs
 # ------------------------------------------------------------------------------------------------
-INT_NAMES = ["a", "b", "n", "foo-bar", "ok?", "λ", "def", "class", "_u", "*g*"]
-LIST_NAMES = ["xs", "my-list", "from"]
+# (keyword-named variables are exercised by the mincing matrix and the catalogue; here they would make random programs hit
+# the known `global <keyword>` defect through comprehensions that assign at module level)
+INT_NAMES = ["a", "b", "n", "foo-bar", "ok?", "λ", "naïve", "match", "_u", "*g*"]
+LIST_NAMES = ["xs", "my-list", "type"]
 
 
 class Gen:
@@ -534,7 +553,7 @@ class Gen:
             return f"(when {B()} {S()} {S()})"
         if c == 10:
             i = self.fresh("i")
-            return f"(setv {i} (% {I()} 4)) (while (> {i} 0) (-= {i} 1) {S(in_loop=True)} {S(in_loop=True)}{self.pick(['', ' (else ' + S() + ')'])})"
+            return f"(do (setv {i} (% {I()} 4)) (while (> {i} 0) (-= {i} 1) {S(in_loop=True)} {S(in_loop=True)}{self.pick(['', ' (else ' + S() + ')'])}))"
         if c == 11:
             x = self.pick(["x", "it", "for-var"])
             return f"(for [{x} {L()}] (log \"it\" {x}) {S(in_loop=True)}{self.pick(['', ' (else ' + S() + ')'])})"
@@ -554,7 +573,7 @@ class Gen:
             return f"(defn {name} {ps} {body})"
         if c == 17 and not in_fn:
             name = self.fresh("K")
-            return f"(defclass {name} [] (setv v {I()}) (defn m [self p] (+ p self.v {I()}))) (log \"m\" (.m ({name}) {I()}))"
+            return f"(do (defclass {name} [] (setv v {I()}) (defn m [self p] (+ p self.v {I()}))) (log \"m\" (.m ({name}) {I()})))"
         if c == 18:
             return f"(cond {B()} {S()} {B()} {S()} True {S()})"
         if c == 19:
@@ -568,17 +587,17 @@ class Gen:
         if c == 23:
             return f"(log \"fs\" f\"{{{I()} = }}|{{{L()} !r :>{{{I()}}}}}\")"
         if c == 24:
-            return f"(unless {B()} {S()})"
+            return f"(when (not {B()}) {S()})"
         return f"(log \"e\" {I()})"
 
 
 def random_program(r):
     g = Gen(r)
-    forms = ['(setv a 3 b 5 n 0 foo-bar 2 ok? 1 λ 4 def 6 class 7 _u 8 *g* 9 xs [1 2 3] my-list [4 5] from [6] d {"k" 1} pt (Pt 1 2))']
+    forms = ['(setv a 3 b 5 n 0 foo-bar 2 ok? 1 λ 4 naïve 6 match 7 _u 8 *g* 9 xs [1 2 3] my-list [4 5] type [6] d {"k" 1} pt (Pt 1 2))']
     for _ in range(r.randint(2, 6)):
         s = g.S(r.randint(1, 3))
         forms.append(guarded("(do " + s + ")") if r.random() < 0.7 else s)
-    forms.append('(log "end" a b n foo-bar ok? λ def class _u *g* xs my-list from d pt)')
+    forms.append('(log "end" a b n foo-bar ok? λ naïve match _u *g* xs my-list type d pt)')
     return "\n".join(forms)
 
 
